@@ -379,6 +379,8 @@ def make_patches(S, force_cap):
             S.op('put', lambda: self.maxsize <= 0 or len(self.items) < self.maxsize)
             self.items.append(x)
             self.unfinished += 1
+            if getattr(S, 'split_put', False):
+                S.op('handed')          # "put() has returned" as an event of its own: the consumer may run before the producer's next line
 
         def get(self):
             S.op('get', lambda: len(self.items) > 0)
@@ -454,7 +456,7 @@ class YieldFile:
 BIT = {'TM': 1, 'TC': 2, 'TW': 4}
 
 
-def replay(scn, cap, schedule, tail='D', max_tail=400, chooser=None, late_begin=False):
+def replay(scn, cap, schedule, tail='D', max_tail=400, chooser=None, late_begin=False, split_put=False):
     """run scenario `scn` (a function out_path, cap -> None that calls a converter's run) under the scheduler.
     schedule: string over M/C/W for the run_conversion_loop phase (None: use chooser(enabled names) for every step).
     tail: after the schedule is exhausted, 'D' = daemon threads first, 'M' = calling thread first.
@@ -464,6 +466,7 @@ def replay(scn, cap, schedule, tail='D', max_tail=400, chooser=None, late_begin=
     S = Sched()
     S.caps_seen = []
     S.late_begin = late_begin
+    S.split_put = split_put
     force = scn.force_cap(cap)
     Q, T, Z = make_patches(S, force)
     out = os.path.join(TMP, 'out.sgz')
@@ -587,6 +590,11 @@ class NumpyScn(Scenario):
         n_il = max(2, 4 * n - rnd.choice([0, 1, 3]))      # the writers need at least two lines per axis (axis[1] - axis[0])
         self.shape = (n_il, rnd.choice([4, 5, 8]), rnd.choice([8, 9, 13]))
         self.data = rnd_cube(rnd, self.shape)
+        # non-finite samples (a NaN and an infinity per plane set): the source hash covers the source's bytes, whoever gets to
+        # a shared buffer first
+        for k_ in range(0, n_il, 4):
+            self.data[k_, rnd.randrange(self.shape[1]), rnd.randrange(self.shape[2])] = np.float32('nan')
+            self.data[min(k_ + 1, n_il - 1), rnd.randrange(self.shape[1]), rnd.randrange(self.shape[2])] = np.float32('inf')
         self.tag = 'x'.join(map(str, self.shape))
 
     def force_cap(self, cap):
@@ -892,7 +900,7 @@ def schedules_for(progs, n, cap, budget, search):
                                                'bad_example': bad[0] if bad else None}
 
 
-def random_search(scn, cap, tries, stats, late_begin=False):
+def random_search(scn, cap, tries, stats, late_begin=False, split_put=False):
     """model-free: random schedules judged by the oracle only"""
     ref = reference(scn, cap)
     if ref['obs']['exc'] or ref['obs']['deadlock'] or not ref['obs']['finished']:
@@ -913,10 +921,11 @@ def random_search(scn, cap, tries, stats, late_begin=False):
                 return bias
             return r.choice(en)
         tail = 'D' if i % 2 == 0 else 'M'
-        obs = replay(scn, cap, None, tail=tail, chooser=chooser, late_begin=late_begin)
-        judge(scn, cap, None, tail + (', thread bodies begin after every start() call' if late_begin else ''), obs, ref)
-        R.case((scn.route, scn.n, cap, late_begin, str(sched_text(obs.get('chosen', [])))), nontrivial=True)
-        R.count(f'random{"-late-begin" if late_begin else ""}/{scn.route}/n{scn.n}/cap{cap}')
+        obs = replay(scn, cap, None, tail=tail, chooser=chooser, late_begin=late_begin, split_put=split_put)
+        judge(scn, cap, None, tail + (', thread bodies begin after every start() call' if late_begin else '')
+              + (', the return of every put() is a scheduling point' if split_put else ''), obs, ref)
+        R.case((scn.route, scn.n, cap, late_begin, split_put, str(sched_text(obs.get('chosen', [])))), nontrivial=True)
+        R.count(f'random{"-late-begin" if late_begin else ""}{"-split-put" if split_put else ""}/{scn.route}/n{scn.n}/cap{cap}')
 
 
 def main():
@@ -935,7 +944,7 @@ def main():
         ref = reference(scn, inp['capacity'])
         lb = 'begin after' in str(inp.get('tail', ''))
         obs = replay(scn, inp['capacity'], inp.get('schedule') or None, tail=str(inp.get('tail', 'D'))[:1],
-                     chooser=sequential_chooser, late_begin=lb)
+                     chooser=sequential_chooser, late_begin=lb, split_put='return of every put()' in str(inp.get('tail', '')))
         judge(scn, inp['capacity'], inp.get('schedule'), inp.get('tail', 'D'), obs, ref)
         R.case(('replay',), nontrivial=True)
         R.write(a.out)
@@ -976,6 +985,13 @@ def main():
             if time.time() - T_START > TIME_BUDGET + 20:
                 break
             random_search(scns[(rname, 2)], cap, 2 if QUICK else 10, stats, late_begin=True)
+    # "put() has returned" as an event of its own (the consumer may deal with the item before the producer executes its next
+    # line), random schedules; judged by the oracle only
+    for rname in routes:
+        for n_, cap in ((3, 2), (2, 16)):
+            if time.time() - T_START > TIME_BUDGET + 30:
+                break
+            random_search(scns[(rname, n_)], cap, 4 if QUICK else 16, stats, split_put=True)
     if PROGS is None or a.search:
         # (the configurations with the most items first: most reorderings need at least three; small capacities first)
         for rname, n, cap, budget in sorted(plan, key=lambda t_: (-t_[1], t_[2])):
